@@ -15,9 +15,9 @@ CHECK_DEADLOCK FALSE
 
 
 def run(ctx):
-    plans = [("single3", 3, "single"), ("gauge4", 4, "gauge"), ("mixed3", 3, "mixed")]
+    plans = [("single3", 3, "single"), ("gauge4", 4, "gauge"), ("mixed3", 3, "mixed"), ("timers2", 2, "timers")]
     if ctx.tier == "thorough":
-        plans += [("mixed4", 4, "mixed"), ("single4", 4, "single")]
+        plans += [("mixed4", 4, "mixed"), ("single4", 4, "single"), ("timers3", 3, "timers")]
     named = {}
     fails = []
     for label, mm, kind in plans:
